@@ -48,8 +48,7 @@ MIRRORED = [
     ('mitxgraders/helpers/validatorfuncs.py', 'all_unique'),
     ('mitxgraders/helpers/validatorfuncs.py', 'is_callable_with_args'),
 ]
-REFUTED = ['C20_refusal_is_validation_error_refuted_LinearComparer', 'C20_refusal_is_validation_error_refuted_NumericalGrader',
-           'C20_refusal_is_validation_error_refuted_complex_number', 'C20_rebuild_from_config_refuted_deleted_constant']
+REFUTED = ['C20_rebuild_from_config_refuted_deleted_constant']
 TRUSTED = [
     'translator translate/schemas.py (Python ast -> schema terms; fail-closed; two try/except functions are mirrored by '
     'hand-written constructors and guarded by an AST hash)',
@@ -69,10 +68,9 @@ LEVEL_TEXT = ('Theorems for all schemas of the voluptuous fragment in use and al
               'dictionary forms agree, and re-validating a validated configuration returns it unchanged (for the syntactic '
               'class of schemas that every class of the library falls in -- checked by computation on the schemas regenerated '
               'from the source). Cross-option rules (whitelist/blacklist, overrides, collisions, subgrader/grouping rules, nested '
-              'delimiters) are characterised on hand-written models tied by correspondence. The claim "a refused configuration '
-              'raises a configuration or validation error" is proved for every guarded schema (21 of the 31 class schemas, all '
-              'values) and REFUTED where Range/Length meet values they cannot order or measure; "rebuilding from the exposed '
-              'configuration" is proved at schema level for every class and REFUTED at constructor level (deleted constants).')
+              'delimiters) are characterised on hand-written models tied by correspondence. A refused configuration raises a '
+              'validation error: proved for every class schema and every value. "Rebuilding from the exposed configuration" is '
+              'proved at schema level for every class and REFUTED at constructor level (deleted default constants, known finding).')
 LEVEL_NOTE = ('Interpreter faithfulness to voluptuous and of the rule models to the constructors is differential correspondence '
               '(every validate_config call of the sweep re-evaluated in Coq); documented defaults are a hand-written table.')
 TECHNIQUE = 'Coq proof (deep embedding + interpreter, induction over nested schemas) + source-to-Gallina translator + vm_compute correspondence'
@@ -648,19 +646,15 @@ def replay(w):
 
 
 def classify_known(w, known):
-    """A known finding is characterised by the call site that raises and the triggering condition:
-       * wrong-error-class: the exception type and the innermost raising frame (file:qualified function), and -- when
-         the entry lists them -- the (class, option) sites the finding is confined to;
-       * rebuild-refused: the condition `deleted-default-constant-reused` (a default constant removed with None is
-         also declared as a variable / numbered variable)."""
+    """The one finding that remains known is characterised by call site and triggering condition: rebuilding a grader
+    from its own configuration is refused (kind rebuild-refused) BECAUSE a default constant removed with None is also
+    declared as a variable / numbered variable (condition deleted-default-constant-reused, computed from the case).
+    Everything else -- in particular a refusal with a non-validation error class, the repaired defects 9e7ee91 and
+    49c25d3 -- is never classified."""
+    if w.get('kind') != 'rebuild-refused' or w.get('condition') != 'deleted-default-constant-reused':
+        return None
     for e in known:
         kw = e.get('witness', {})
-        if w.get('kind') == 'wrong-error-class' and kw.get('kind', 'wrong-error-class') == 'wrong-error-class':
-            if kw.get('exc_type') == w.get('exc_type') and kw.get('raise_site') and kw.get('raise_site') == w.get('raise_site'):
-                sites = kw.get('sites')      # optional: ["Class.option", ...] the finding is confined to
-                if sites is None or any('%s.%s' % (w.get('class'), o) in sites for o in w.get('options', [])):
-                    return e['id']
-        if w.get('kind') == 'rebuild-refused' and kw.get('kind') == 'rebuild-refused':
-            if w.get('condition') == 'deleted-default-constant-reused' and kw.get('condition') == w.get('condition'):
-                return e['id']
+        if kw.get('kind') == 'rebuild-refused' and kw.get('condition') == 'deleted-default-constant-reused':
+            return e['id']
     return None
